@@ -42,7 +42,7 @@ type Replay struct {
 
 const rule = "histories of GetOrCreateJournal over spellings (order, blanks, braces, quoted/raw values, the printed line of an earlier answer, malformed texts) of 2-4 tag sets whose values come from an alphabet rich in quote, back-quote, comma, equals, braces, blank and non-ASCII bytes, followed by Visit with {tags} (also pairs with the empty value for names a partition lacks) and expression sources and, for a third of them, a restart (a new service loads the index file: tags and answers must be as before); neighbour histories: the partition of a set with a value the quoting rule of line() is about (blank at an end, quote characters, closing brace) is created before the raw text of that set, a spelling of a neighbouring set, is written; expression sources from a grammar over all ten operators in both cases, UPPER/LOWER nesting, NOT, AND, OR, parentheses, valid and malformed LIKE patterns, applied to 4 tag sets; in-process server histories with SHOW PARTITIONS and SELECT FROM; races of 2-8 first writes; a case is non-trivial iff a history has >= 2 distinct partitions and >= 1 text that is not the canonical line of its set, an expression has >= 2 conditions or a function, a race has >= 2 spellings"
 
-var special = []byte{'"', '\\', ',', '=', '{', '}', '`', ' ', 0xc3, 0xa9, 0xff}
+var special = []byte{'"', '\\', ',', '=', '{', '}', '`', ' ', 0xc3, 0xa9, 0xff, '\n'}
 var letters = []byte("abcxyz01AZ._-")
 
 func genStr(r *Rng, maxLen int, pSpecial int) []byte {
@@ -85,7 +85,7 @@ func genSet(r *Rng, pSpecial int) []kv {
 // (blanks at an end are trimmed, a quoted literal is unquoted, a closing brace at the end of the line closes it)
 func edgy(r *Rng) string {
 	w := r.PickStr("app", "x", "a1", "eu", "0")
-	switch r.Intn(9) {
+	switch r.Intn(10) {
 	case 0:
 		return " " + w
 	case 1:
@@ -102,6 +102,8 @@ func edgy(r *Rng) string {
 		return "\"\""
 	case 7:
 		return w + " }"
+	case 8:
+		return "new\n" + w // a line feed: written as a quoted literal (a line is one line)
 	}
 	return " "
 }
@@ -773,7 +775,7 @@ func classifyTags(m map[string]string) string {
 		if v == "" || strings.ContainsAny(v, "=,") {
 			continue
 		}
-		if v[0] == '"' || v[0] == '`' || v[0] == ' ' || v[len(v)-1] == ' ' || (i == len(ks)-1 && v[len(v)-1] == '}') {
+		if v[0] == '"' || v[0] == '`' || v[0] == ' ' || v[len(v)-1] == ' ' || (i == len(ks)-1 && v[len(v)-1] == '}') || strings.IndexByte(v, '\n') >= 0 {
 			continue
 		}
 		if !scanBalanced(v) {
@@ -1408,6 +1410,8 @@ func corpus() []Replay {
 		{Kind: "hist", Texts: bs(`a=" x"`, `a= x`, `a=x`, `a="x  "`, `a=x  `, `a=" "`, `a= `, `a=""`), Sources: []string{"", `{a=x}`, `{a=" x"}`, `{a=""}`}, Restart: true},
 		{Kind: "hist", Texts: bs("a=\"`x`\"", "a=`x`", `a=x`, `a="\"x\""`, `a="x"`), Sources: []string{"", `{a=x}`}, Restart: true},
 		{Kind: "hist", Texts: bs(`b=1,a="x}"`, `a=x},b=1`, `b=1,a=x`, `z="x}"`, `z=x}`, `{z=x}`, `z=x`), Sources: []string{"", `{a=x}`, `{z=x}`}, Restart: true},
+		// a value with a line feed: its line is a quoted literal; the raw spelling denotes the same set
+		{Kind: "hist", Texts: bs("a=\"new\\nline\",b=c", "b=c,a=new\nline", "a=\"new\\nline\"", "a=new\nline"), Sources: []string{"", `{b=c}`}, Restart: true},
 		// FROM {k=""}: a missing tag is not a tag with the empty value
 		{Kind: "hist", Texts: bs(`name=app1`, `name=app2,zone=""`, `name=app3,zone=z`), Sources: []string{`{zone=""}`, `{rack=""}`, `{name=app2,zone=""}`, `{zone=z}`}, Restart: true},
 		{Kind: "hist", Texts: bs(`name=app1,ip=1`, `{ ip = "1" , name=app1 }`, `ip=1,name=app1`, `ip=2,name=app1`, `name=app1`),
